@@ -45,7 +45,8 @@ pub struct DropScenario {
     pub connect_queue: u16,
     pub cycles_before: u8,
     /// The held request's accept was started while the send queue was full and is still parked there.
-    pub accept_parked: bool,
+    pub close_rx: bool,
+    accept_parked: bool,
 }
 
 #[derive(Default)]
@@ -178,10 +179,11 @@ async fn open_ports(env: &Env, h: &mut Handles, n: u8) -> Result<usize, String> 
 impl Scenario for DropScenario {
     fn id(&self) -> String {
         format!(
-            "c07/p{}/x{}{}/{:?}/mp{}/cq{}/cy{}/{}",
+            "c07/p{}/x{}{}{}/{:?}/mp{}/cq{}/cy{}/{}",
             self.ports,
             self.extras as u8,
             if self.accept_parked { "p" } else { "" },
+            if self.close_rx { "/closerx" } else { "" },
             self.gap,
             self.max_ports,
             self.connect_queue,
@@ -194,6 +196,7 @@ impl Scenario for DropScenario {
         let obs = shared(Obs::default());
         let (ports, extras, order, gap, cycles) = (self.ports, self.extras, self.order.clone(), self.gap, self.cycles_before);
         let accept_parked = self.accept_parked;
+        let close_rx = self.close_rx;
         let mk = |mp: u32, cq: u16| Cfg { max_ports: mp, connect_queue: cq, ..cfg(8, 16, 16, 2, 2) };
         let (cfg_a, cfg_b) = (mk(self.max_ports, self.connect_queue), mk(self.max_ports, self.connect_queue));
         let max_ports = [self.max_ports, self.max_ports];
@@ -235,6 +238,19 @@ impl Scenario for DropScenario {
                         o2.lock().unwrap().err = Some(e);
                         return;
                     }
+                }
+                if close_rx {
+                    for i in 0..h.arx.len() {
+                        if let Some(rx) = h.arx[i].as_mut() {
+                            rx.close().await;
+                        }
+                    }
+                    for i in 0..h.brx.len() {
+                        if let Some(rx) = h.brx[i].as_mut() {
+                            rx.close().await;
+                        }
+                    }
+                    env.quiesce().await;
                 }
                 h.atx.clear();
                 h.arx.clear();
@@ -287,6 +303,21 @@ impl Scenario for DropScenario {
             }
             env.explore(true);
             for hd in order {
+                if close_rx {
+                    // close() first, let the close reach the other endpoint, then drop
+                    let rx = match hd {
+                        H::ARx(i) => h.arx[i as usize].as_mut(),
+                        H::BRx(i) => h.brx[i as usize].as_mut(),
+                        _ => None,
+                    };
+                    if let Some(rx) = rx {
+                        rx.close().await;
+                        match gap {
+                            Gap::Yield => yield_once().await,
+                            Gap::Quiesce => env.quiesce().await,
+                        }
+                    }
+                }
                 h.drop_one(hd);
                 match gap {
                     Gap::Yield => yield_once().await,
@@ -356,11 +387,16 @@ impl Scenario for DropScenario {
 }
 
 fn mk(ports: u8, extras: bool, order: Vec<H>, gap: Gap, mp: u32, cq: u16, cycles: u8) -> Arc<dyn Scenario> {
-    Arc::new(DropScenario { ports, extras, order, gap, max_ports: mp, connect_queue: cq, cycles_before: cycles, accept_parked: false })
+    Arc::new(DropScenario { ports, extras, order, gap, max_ports: mp, connect_queue: cq, cycles_before: cycles, accept_parked: false, close_rx: false })
+}
+
+/// Like `mk`, but every receiver is closed (`Receiver::close`) and the close is let through before the receiver is dropped.
+fn mk_close(ports: u8, order: Vec<H>, gap: Gap, mp: u32, cq: u16, cycles: u8) -> Arc<dyn Scenario> {
+    Arc::new(DropScenario { ports, extras: false, order, gap, max_ports: mp, connect_queue: cq, cycles_before: cycles, accept_parked: false, close_rx: true })
 }
 
 fn mk_parked(order: Vec<H>, gap: Gap, mp: u32, cq: u16) -> Arc<dyn Scenario> {
-    Arc::new(DropScenario { ports: 1, extras: true, order, gap, max_ports: mp, connect_queue: cq, cycles_before: 0, accept_parked: true })
+    Arc::new(DropScenario { ports: 1, extras: true, order, gap, max_ports: mp, connect_queue: cq, cycles_before: 0, accept_parked: true, close_rx: false })
 }
 
 /// All permutations for one port without extras (8! = 40320) or a strided subset.
@@ -372,6 +408,13 @@ pub fn orders(tier: Tier) -> Vec<Arc<dyn Scenario>> {
     let mut k = 0;
     while k < n {
         out.push(mk(1, false, permutation(&hs, k), Gap::Yield, 2, 1, 0));
+        k += stride;
+    }
+    // the same orders with every receiver closed before it is dropped (close then drop, on one or both endpoints)
+    let stride = if tier == Tier::Quick { 13 } else { 1 };
+    let mut k = 0;
+    while k < n {
+        out.push(mk_close(1, permutation(&hs, k), if k % 2 == 0 { Gap::Yield } else { Gap::Quiesce }, 2, 1, 0));
         k += stride;
     }
     // with extras (10 handles): strided sample of the 3.6M orders
@@ -418,6 +461,7 @@ pub fn core(tier: Tier) -> Vec<Arc<dyn Scenario>> {
         let mut r = hs.clone();
         r.reverse();
         out.push(mk(2, false, r, Gap::Quiesce, 3, 2, c));
+        out.push(mk_close(2, hs.clone(), Gap::Yield, 2, 1, c));
     }
     out
 }
